@@ -109,6 +109,19 @@ pub struct Violation {
     pub detail: Value,
 }
 
+/// Keep at most `per_class` violations of each class (the first ones) and return how many remain.
+/// Used instead of "stop after N violations": a flood of one (possibly known) class must not keep
+/// a different class from being seen.
+pub fn prune_by_class(out: &mut Vec<Violation>, per_class: usize) -> usize {
+    let mut seen: BTreeMap<String, usize> = BTreeMap::new();
+    out.retain(|v| {
+        let c = seen.entry(v.class.clone()).or_insert(0);
+        *c += 1;
+        *c <= per_class
+    });
+    out.len()
+}
+
 pub fn hash_of<T: Hash>(t: &T) -> u64 {
     let mut h = std::collections::hash_map::DefaultHasher::new();
     t.hash(&mut h);
